@@ -454,7 +454,7 @@ def rule_depth_units(ctx):
 RULES = [("one-site", rule_one_site), ("spine-panics", rule_spine_panics), ("tree-index", rule_tree_index), ("go-keywords", rule_go_keywords), ("poll", rule_poll), ("time-budget", rule_time_budget), ("nonblocking", rule_nonblocking),
          ("depth-units", rule_depth_units), ("legal-src", rule_legal_src)]
 # "legal" in "exactly one legal bestmove" rests on the legality filter
-RULES += engine.premise_rules("c01", ["filter", "probe"])
+RULES += engine.premise_rules("c01", ["filter", "probe", "square-arith"])
 # get_pv runs on the search thread before the bestmove line and asserts that it restored its scratch board: the line is
 # printed only if the walk takes back exactly the moves it played (C14.pv-legal)
 RULES += engine.premise_rules("c14", ["pv-legal"])
